@@ -67,6 +67,9 @@ type Cmd struct {
 }
 
 func (c Cmd) String() string {
+	if c.Kind == RawBytes {
+		return fmt.Sprintf("raw %q", c.Raw)
+	}
 	v := ""
 	if c.Value != nil {
 		if len(c.Value) > 24 {
